@@ -55,3 +55,28 @@ Proof.
   eexists. eexists. split; [vm_compute; reflexivity|]. split; [vm_compute; reflexivity|].
   split; vm_compute; reflexivity.
 Qed.
+
+(** ** the algorithm itself (not only its certificate)
+    For every item list whose ACE lines are pairwise distinct and distinct from the remark
+    lines (inside one ACL the same text is the same entry, and remark lines begin with the word
+    "remark"), whatever [delete_shadow] returns gives every packet the decision the original list
+    gave.  [delete_shadow_certified] shows that the result always passes the certificate: every
+    dropped item is an ACE whose line is in the report, and every line in the report belongs to
+    an ACE shaded by an ACE standing before it. *)
+From V Require Import proofs.DeleteAlgoProofs.
+
+Theorem C04_certified : forall (A : Type) (sh : A -> A -> bool) items d rest,
+  ace_lines_unique A items -> remark_lines_apart A items ->
+  delete_shadow sh items = Ok (d, rest) ->
+  exists keep, rest = select A items keep /\ removal_okb A sh [] items keep = true.
+Proof. exact delete_shadow_certified. Qed.
+
+Theorem C04_decision : forall pl sg snc (items : list (item payload)) d rest,
+  all_good payload good items -> ace_lines_unique payload items -> remark_lines_apart payload items ->
+  delete_shadow (shb pl sg snc) items = Ok (d, rest) ->
+  forall k, pkt_wf k -> decide pmatches paction rest k = decide pmatches paction items k.
+Proof.
+  intros pl sg snc items d rest G U R H k Hk.
+  destruct (delete_shadow_certified payload (shb pl sg snc) items d rest U R H) as (keep & -> & OK).
+  now apply (delete_decision pl sg snc items keep G OK k Hk).
+Qed.
